@@ -260,7 +260,7 @@ theorem delDescendants_spec {s : Sys π ν} (hs : Sane s) (hr : RegsKnow s) (L :
     have hsane1 : Sane s1 := by
       rw [← hs1]
       apply sane_removeNode
-      exact sane_congr hs rfl rfl rfl rfl
+      exact sane_congr hs rfl rfl rfl rfl (nodup_dkeys_ddel hs.nodes_nodup)
     simp only [List.nodup_cons] at hL
     have hlive1 : ∀ d ∈ cs, d ∈ s1.ids := by
       intro d hd
